@@ -77,6 +77,17 @@ class Report:
         self.extra: dict = {}
         self.errors: list[str] = []
 
+    def isolate(self, fn, *args, **kwargs):
+        """Run one rule; an AnalysisError (idiom not recognised) is recorded and the remaining rules
+        still run, so that one undecidable rule does not hide the verdicts of the others.  The run
+        as a whole then ends with exit 2 unless some rule found a violation (exit 1)."""
+        try:
+            return fn(*args, **kwargs)
+        except AnalysisError as e:
+            if str(e) not in self.errors:
+                self.errors.append(str(e))
+            return None
+
     def rule(self, rule: str, title: str, floor: int = 0) -> RuleResult:
         r = RuleResult(rule=rule, title=title, floor=floor)
         self.rules.append(r)
